@@ -21,6 +21,8 @@ Families
   constobj  constants in object / callee / operand positions, behind 0..260 other constants
   gotoclose a goto leaves a block whose local is captured by a closure created before and/or after
             the goto statement (block kind x goto form x preceding instruction x label position)
+  closexpr  function expressions capturing 0..3 locals / upvalues, used directly in every expression
+            position served by the operand-forwarding peepholes
   vararg    vararg functions with 0..8 named parameters whose body only reads the implicit 'arg'
             local (R(NumParameters)) or never touches it
 """
@@ -987,6 +989,50 @@ def gotoclose_cases(full):
 
 
 # --------------------------------------------------------------------------
+# closexpr: a function expression that captures locals / upvalues, used DIRECTLY in every expression
+# position the operand-forwarding peepholes serve (the last word before them is a capture pseudo-op)
+
+CX_POS = [
+    "g = (%F).k", "g = (%F)[1]", "g = (%F)[y]", "g = t[%F]", "g = #(%F)", "g = -(%F)", "g = not (%F)",
+    "g = (%F) + 1", "g = 1 + (%F)", "g = (%F) * y", "g = y - (%F)", "g = (%F) == y", "g = y ~= (%F)", "g = (%F) < y",
+    "g = y <= (%F)", "g = (%F) .. 'a'", "g = 'a' .. (%F)", "g = y .. (%F) .. y", "g = (%F):m()", "g = (%F):m(y)",
+    "(%F):m()", "f(%F)", "f(y, %F)", "f(%F, y)", "g = f(%F)", "(%F)()", "g = (%F)(y)", "if %F then g = 1 end",
+    "if not (%F) then g = 1 end", "while %F do break end", "repeat g = 1 until %F", "if (%F) == y then g = 1 end",
+    "if y and (%F) then g = 1 end", "g = {%F}", "g = {%F, y}", "g = {k = %F}", "g = {[%F] = 1}", "g = {[y] = %F}",
+    "g = y and (%F)", "g = (%F) or y", "g = (%F) and y", "t.k = %F", "t[y] = %F", "t[%F] = y", "(%F).k = 1", "(%F)[y] = 1",
+    "y = %F", "local z = %F", "local z, zz = %F, %F", "g, y = %F, 1", "return %F", "return y, %F", "return (%F).k",
+    "return #(%F)", "return (%F):m()", "for i = 1, #(%F) do end", "for kk in %F do end", "for kk, vv in pairs(%F) do end",
+]
+CX_FUN = {
+    "l1": "function() return x1 end", "l2": "function() return x1, x2 end", "l3": "function() x3 = x1 return x2 end",
+    "u1": "function() return u1 end", "u2": "function() return u1, u2 end", "lu": "function() return x1, u1 end",
+    "ul": "function() return u2, x2 end", "none": "function() return 1 end", "nested": "function() return function() return x1, u1 end end",
+}
+
+
+def closexpr_source(pos, fun, wrap):
+    st = CX_POS[pos].replace("%F", CX_FUN[fun])
+    body = "local x1, x2, x3, y = 1, 2, 3, 4\n" + st + "\n"
+    if not st.startswith("return"):
+        body += "g = y\n"
+    if wrap == "loop":
+        body = "while y do\nlocal x1, x2, x3 = 1, 2, 3\n" + st + "\n" + ("" if st.startswith("return") else "g = y\n") + "end\n"
+        body = "local y = 4\n" + body
+    return "local u1, u2, t = 1, 2, {}\nlocal function w(...)\n" + body + "end\nreturn w\n"
+
+
+def closexpr_cases(full):
+    out = []
+    for pos in range(len(CX_POS)):
+        for fi, fun in enumerate(CX_FUN):
+            for wrap in ("func", "loop"):
+                if not full and (pos + fi) % 3 != (0 if wrap == "func" else 1):
+                    continue
+                out.append(("closexpr", "%d/%s/%s" % (pos, fun, wrap), {"pos": pos, "fun": fun, "wrap": wrap}))
+    return out
+
+
+# --------------------------------------------------------------------------
 # rand: random compositions of the statement kinds (nesting, long bodies)
 
 def rand_source(seed, size):
@@ -1033,6 +1079,7 @@ def cases(tier, seed):
     out += manylocals_cases(full)
     out += manytargets_cases(full)
     out += gotoclose_cases(full)
+    out += closexpr_cases(full)
     out += constobj_cases(full)
     for i in range(1500 if full else 150):
         out.append(("rand", "%d" % i, {"seed": seed * 100000 + i, "size": rng.choice([3, 6, 12, 25])}))
@@ -1056,6 +1103,8 @@ def source(fam, params):
         return longjump_source(params["kind"], params["n"])
     if fam == "upvals":
         return upvals_source(params["n1"], params["n2"], params["n3"], params["mode"])
+    if fam == "closexpr":
+        return closexpr_source(params["pos"], params["fun"], params["wrap"])
     if fam == "gotoclose":
         return gotoclose_source(params["block"], params["gform"], params["before"], params["cpos"], params["decl"], params["lpos"])
     if fam == "manytargets":
